@@ -77,6 +77,27 @@ def search_exprs(ck, exe, work):
                     got = bool(eval(ex["may_alias"], {}, dict(alias1=a1, alias2=a2, nonalias1=n1, nonalias2=n2)))
                     want = (a1 == 0 or a2 == 0 or a1 == a2) and not (n1 != 0 and n2 != 0 and n1 == n2)
                     if got != want:
+                        if want and not got:
+                            # the code denies an aliasing the annotations allow: make the two accesses really alias
+                            nm = {0: "", 1: "x", 2: "y"}
+
+                            def ann(a, n):
+                                return (":" + nm[a] if a else "") + ((":" if not a else "") + ":" + nm[n] if n else "")
+                            m1, m2 = "i64:0(p)" + ann(a1, n1), "i64:0(p)" + ann(a2, n2)
+                            for (x, y) in ((m1, m2), (m2, m1)):
+                                text = (f"m: module\nexport f\nf: func i64, i64:a, i64:b\n  local i64:p, i64:r\n  alloca p, 32\n"
+                                        f"  mov {x}, a\n  mov {y}, b\n  mov r, {x}\n  ret r\n  endfunc\n  endmodule\n")
+                                plan = "call f ii_i 1111 2222\n"
+                                rc, lines, err = progtie.run_engine(exe, ENGINES, text, plan, work, "aliassearch", timeout=60)
+                                badl = [l for l in lines if l.startswith("R ") and " | =" not in l] + [l for l in lines if l.startswith("E ")]
+                                if rc != 0 or badl:
+                                    ck.violation({"stage": "search", "theorem": "may_alias_spec (Props/C01Exprs.lean)",
+                                                  "counterexample": {"alias1": a1, "alias2": a2, "nonalias1": n1, "nonalias2": n2,
+                                                                     "code_says_may_alias": got, "spec": want},
+                                                  "mir": text, "plan": plan, "engines": ENGINES, "lines": badl[:4]},
+                                                 what=f"may_alias_p denies aliasing for alias sets ({a1},{a2}) nonalias ({n1},{n2}) although the "
+                                                      f"annotations allow it; a store between an annotated store and its reload is ignored: {badl[:1]}")
+                                    return
                         ck.broken_ties.append({"kind": "theorem", "name": "may_alias_spec", "counterexample": [a1, a2, n1, n2],
                                                "code_says": got, "spec_says": want})
                         return
